@@ -780,7 +780,8 @@ class MethodRowsSuite:
         bobs, singles, bob_def, single_def = {}, {}, {}, {}
         if with_calls:
             for d, dd in ((bobs, bob_def), (singles, single_def)):
-                for _ in range(rng.randint(1, 2)):
+                # (no position at all - as Stedman Doubles has for Bobs - means that the call never acts)
+                for _ in range(rng.choice([0, 1, 1, 1, 2, 2])):
                     pos = rng.randint(-2 * L, 2 * L)
                     # (crosses included: a cross is the EMPTY place list, which is falsy in Python)
                     d[pos] = [random_change(rng, stage) for _ in range(rng.randint(1, 4))]
